@@ -47,8 +47,8 @@ def r18_1(ck, F):
     cp = [bb for bb, t in b.calls("bytes::Bytes::copy_from_slice")]
     ok = len(adds) == 1 and len(rng) == 1 and bool(cp)
     if ok:
-        e = adds[0][2]
-        ok = e[0] == "bin" and e[1] == "Add" and mir.same_value(mir.strip_casts(e[3]), rng[0][2])
+        ar = arith(adds[0][2])
+        ok = ar is not None and ar[0] == "Add" and mir.same_value(mir.strip_casts(ar[2]), rng[0][2])
     ck.expect(ok, "poll_write#counted-equals-sent", "bytes_written += n and the copied slice is buf[..n] for the same n",
               "the number of bytes counted differs from the number of bytes handed to the channel", b.loc(adds[0][0]) if adds else b.loc(0))
 
@@ -136,8 +136,8 @@ def r18_4(ck, F):
     adv = [(bb, t) for bb, t in b.calls() if (callee(t) or "").endswith("Buf::advance")]
     ok = len(adds) == 1 and bool(adv)
     if ok:
-        e = adds[0]
-        amount = mir.strip_casts(e[3]) if e[0] == "bin" and e[1] == "Add" else None
+        ar = arith(adds[0])
+        amount = mir.strip_casts(ar[2]) if ar is not None and ar[0] == "Add" else None
         ok = amount is not None and mir.same_value(amount, b.expr(adv[0][1]["a"][1]))
         leaves = [mir.show(x) for x in _min_leaves(amount)] if amount is not None else []
         ok = ok and any("remaining" in s for s in leaves)
